@@ -188,6 +188,45 @@ class Tensor:
     def __vf_getslice__(self, I, lo, hi, step):
         return index(I, self, (slice(lo, hi, step),))
 
+    def __vf_setitem__(self, I, key, value):
+        """t[i0, i1, ...] = v with one integer sequence (or int) per leading dimension: an in-place update of THIS tensor
+        object (every holder of the object sees it): entry idx becomes v where idx matches one of the listed positions"""
+        key = list(key) if isinstance(key, tuple) else [key]
+        if len(key) > self.rank:
+            I.raise_("IndexError", "too many indices")
+        cols = []
+        for k in key:
+            if isinstance(k, IntTensorConst):
+                k = k.values
+            if is_intlike(k):
+                cols.append([k])
+            elif isinstance(k, (list, tuple)):
+                cols.append(list(k))
+            elif isinstance(k, SymSeq) and B.concrete_len(I, k.length) is not None:
+                cols.append([k.elem(j) for j in range(B.concrete_len(I, k.length))])
+            else:
+                raise Unsupported("tensor item assignment with a non-enumerable index")
+        n = max(len(c) for c in cols)
+        cols = [c * n if len(c) == 1 else c for c in cols]
+        if any(len(c) != n for c in cols):
+            I.raise_("IndexError", "shape mismatch in index assignment")
+        for c, size in zip(cols, self.shape):
+            for x in c:
+                I.require("setitem.index_in_range", z3.And(to_z3(x) >= 0, to_z3(x) < to_z3(size)))
+        old = self.elem
+        val = as_tensor(value) if isinstance(value, Tensor) else None
+
+        def elem(idx, old=old):
+            hit = z3.Or(*[z3.And(*[to_z3(lin(idx[d])) == to_z3(cols[d][j]) for d in range(len(cols))]) for j in range(n)]) if n else z3.BoolVal(False)
+            new = value if val is None else val.elem([])
+            new = to_z3(new) if not is_z3(new) else new
+            o = old(idx)
+            o = to_z3(o) if not is_z3(o) else o
+            if z3.is_bool(o) != z3.is_bool(new):
+                new = z3.BoolVal(bool(value)) if z3.is_bool(o) and isinstance(value, (bool, int)) else new
+            return z3.If(hit, new, o)
+        self.elem = elem
+
     def __vf_binop__(self, I, op, a, b):
         t = type(op)
         name = {ast.Add: "add", ast.Sub: "sub", ast.Mult: "mul", ast.Div: "div", ast.Pow: "pow"}.get(t)
@@ -885,8 +924,34 @@ def install(I):
         shape = k.get("size", a[0] if a else None)
         if len(a) > 1:
             shape = a
+        dt = str(getattr(k.get("dtype"), "dotted", ""))
+        if dt.endswith("bool"):
+            return Tensor(list(B.iterate(I, shape)), lambda idx: z3.BoolVal(False), "bool")
+        if "int" in dt or dt.endswith("long"):
+            return Tensor(list(B.iterate(I, shape)), lambda idx: z3.IntVal(0), "long")
         return Tensor(list(B.iterate(I, shape)), lambda idx: z3.RealVal(0), "float")
     ext["torch.zeros"] = zeros
+
+    class Scalar0:
+        """a 0-dimensional tensor holding one (symbolic) value: only .item() is observable"""
+
+        def __init__(self, v):
+            self.v = v
+
+        def __vf_getattr__(self, I_, attr):
+            if attr == "item":
+                return BoundBuiltin(lambda: self.v)
+            raise Unsupported(f"0-dim tensor .{attr}")
+
+    def any_(I, a, k):
+        t = as_tensor(a[0])
+        ks = [z3.Int(I.path.fresh_name("k_any")) for _ in t.shape]
+        rng = [z3.And(kk >= 0, kk < to_z3(s)) for kk, s in zip(ks, t.shape)]
+        e = t.elem(ks)
+        e = e if z3.is_bool(e) else (to_z3(e) != 0)
+        return Scalar0(z3.Exists(ks, z3.And(*rng, e)) if ks else e)
+    ext["torch.any"] = any_
+    ext["torch.unsqueeze"] = wrap(unsqueeze)
 
     def arange(I, a, k):
         if len(a) == 1:
